@@ -15,7 +15,10 @@
 //        out: PERM p_0..p_{N-1} (the shuffled index vector select_landmarks_random saw; "PERM -" when
 //             no shuffle was observed) then EMB (N*d) | EXC <exception kind>
 //   S N ratio reps seed                                   select_landmarks_random called reps times
-//        out: reps lines "LM l_0 ..."
+//        out: per repetition "PERM p_0.." (the shuffled vector, "PERM -" if not observed) and "LM l_0 ..."
+//   R N L d lm_0..lm_{L-1} dist(N*N) mu(L) first(L*d) second(d)   triangulate() alone on a harness-chosen
+//        mean vector / landmark embedding / eigenvalues (exact stream: all operands small dyadics)
+//        out: EMB (N*d) and FD (L*d: landmarks_embedding.first AFTER the call, i.e. after the in-place division)
 // Before each case "C <k>" is printed and flushed (crash attribution), after it "END".
 //
 // Shuffle seeding: with hook H1 (TAPKEE_VERIF_SHUFFLE_HOOK, fixes/H1_random_shuffle_hook.patch) the
@@ -64,7 +67,23 @@ struct c11_seeded_device
 };
 } // namespace std
 #define random_device c11_seeded_device
-#include <tapkee/tapkee.hpp>
+#ifdef C11_FULL_API
+#include <tapkee/tapkee.hpp> // tapkee::embed with its dispatch over every method (slow to compile)
+#else
+// quick tier: only the four method classes C11 is about; the harness repeats the five lines of
+// tapkee::embed / DynamicImplementation::embedUsing (check, merge defaults, ImplementationBase
+// constructor, validate(), embed()) for them — see run_api below
+#include <tapkee/defines.hpp>
+#include <tapkee/parameters/context.hpp>
+#include <tapkee/parameters/defaults.hpp>
+#include <tapkee/methods/base.hpp>
+#include <tapkee/utils/matrix.hpp>
+#include <tapkee/routines/eigendecomposition.hpp>
+#include <tapkee/methods/multidimensional_scaling.hpp>
+#include <tapkee/methods/landmark_multidimensional_scaling.hpp>
+#include <tapkee/methods/isomap.hpp>
+#include <tapkee/methods/landmark_isomap.hpp>
+#endif
 #include <tapkee/callbacks/precomputed_callbacks.hpp>
 #include <tapkee/callbacks/dummy_callbacks.hpp>
 #include <tapkee/routines/landmarks.hpp>
@@ -176,6 +195,44 @@ struct Reader
     }
 };
 
+template <class It, class K, class D, class F>
+static TapkeeOutput run_api(const std::string& m, It begin, It end, K kernel, D distance, F features,
+                            stichwort::ParametersSet parameters)
+{
+#ifdef C11_FULL_API
+    (void)m;
+    return tapkee::embed(begin, end, kernel, distance, features, parameters);
+#else
+    try
+    {
+        parameters.check();
+        parameters.merge(tapkee_internal::defaults);
+        void (*progress_function_ptr)(double) = parameters[progress_function];
+        bool (*cancel_function_ptr)() = parameters[cancel_function];
+        tapkee_internal::Context context(progress_function_ptr, cancel_function_ptr);
+        ImplementationBase<It, K, D, F> self(begin, end, kernel, distance, features, parameters, context);
+#define c11_method_handle(NAME, X)                                                                                     \
+    if (m == NAME)                                                                                                     \
+    {                                                                                                                  \
+        auto implementation = X##Implementation<It, K, D, F>(self);                                                    \
+        implementation.validate();                                                                                     \
+        return implementation.embed();                                                                                 \
+    }
+        c11_method_handle("lmds", LandmarkMultidimensionalScaling);
+        c11_method_handle("lisomap", LandmarkIsomap);
+        c11_method_handle("mds", MultidimensionalScaling);
+        c11_method_handle("isomap", Isomap);
+#undef c11_method_handle
+        return TapkeeOutput();
+    }
+    catch (const std::bad_alloc&) { throw tapkee::not_enough_memory_error("Not enough memory"); }
+    catch (const stichwort::wrong_parameter_error& ex) { throw tapkee::wrong_parameter_error(ex.what()); }
+    catch (const stichwort::wrong_parameter_type_error& ex) { throw tapkee::wrong_parameter_type_error(ex.what()); }
+    catch (const stichwort::multiple_parameter_error& ex) { throw tapkee::multiple_parameter_error(ex.what()); }
+    catch (const stichwort::missed_parameter_error& ex) { throw tapkee::missed_parameter_error(ex.what()); }
+#endif
+}
+
 static const char* run_case(const std::string& line)
 {
     Reader in(line);
@@ -221,6 +278,39 @@ static const char* run_case(const std::string& line)
         DenseMatrix emb = triangulate(data.begin(), data.end(), distance, landmarks, landmark_distances_squared,
                                       landmarks_embedding, d);
         put("EMB", emb);
+        return nullptr;
+    }
+    if (mode == "R")
+    {
+        IndexType N = in.integer(), L = in.integer(), d = in.integer();
+        if (!in.ok || N <= 0 || L <= 0 || d <= 0 || N > 4096 || L > N || d > L)
+            return "BADCASE";
+        Landmarks landmarks(L);
+        for (IndexType i = 0; i < L; ++i)
+        {
+            landmarks[i] = in.integer();
+            if (landmarks[i] < 0 || landmarks[i] >= N)
+                return "BADCASE";
+        }
+        DenseMatrix dist, first;
+        if (!in.matrix(dist, N, N))
+            return "BADCASE";
+        DenseVector mu(L), second(d);
+        for (IndexType i = 0; i < L; ++i)
+            mu(i) = in.real();
+        if (!in.matrix(first, L, d))
+            return "BADCASE";
+        for (IndexType i = 0; i < d; ++i)
+            second(i) = in.real();
+        if (!in.ok)
+            return "BADCASE";
+        std::vector<IndexType> data(N);
+        std::iota(data.begin(), data.end(), 0);
+        precomputed_distance_callback distance(dist);
+        EigendecompositionResult landmarks_embedding(first, second);
+        DenseMatrix emb = triangulate(data.begin(), data.end(), distance, landmarks, mu, landmarks_embedding, d);
+        put("EMB", emb);
+        put("FD", landmarks_embedding.first);
         return nullptr;
     }
     if (mode == "I")
@@ -295,9 +385,9 @@ static const char* run_case(const std::string& line)
                                         : m == "mds"     ? MultidimensionalScaling
                                                          : Isomap;
         seed_shuffle(seed, N);
-        TapkeeOutput out = tapkee::embed(data.begin(), data.end(), kernel, distance, features,
-                                         (method = meth, target_dimension = d, landmark_ratio = ratio,
-                                          num_neighbors = k, eigen_method = Dense, check_connectivity = false));
+        TapkeeOutput out = run_api(m, data.begin(), data.end(), kernel, distance, features,
+                                   (method = meth, target_dimension = d, landmark_ratio = ratio,
+                                    num_neighbors = k, eigen_method = Dense, check_connectivity = false));
         if ((m == "lmds" || m == "lisomap") && g_perm_seen)
         {
             std::printf("PERM");
@@ -325,6 +415,15 @@ static const char* run_case(const std::string& line)
         {
             seed_shuffle(seed < 0 ? -1 : seed + r, N);
             Landmarks lm = select_landmarks_random(data.begin(), data.end(), ratio);
+            if (g_perm_seen)
+            {
+                std::printf("PERM");
+                for (long long p : g_perm)
+                    std::printf(" %lld", p);
+                std::printf("\n");
+            }
+            else
+                std::printf("PERM -\n");
             std::printf("LM");
             for (IndexType x : lm)
                 std::printf(" %d", (int)x);
